@@ -161,6 +161,8 @@ pub struct Workload {
     /// connection keys (client incarnations) whose traffic is rewritten by a hostile peer: no
     /// data / API expectations hold there
     pub unchecked: std::collections::BTreeSet<u32>,
+    /// send windows set at run time through `Connection::set_send_window` (latest per connection)
+    pub send_window_set: BTreeMap<u32, u64>,
 }
 
 fn sid_u64(id: StreamId) -> u64 {
@@ -174,7 +176,7 @@ fn sid_from(v: u64) -> StreamId {
 
 impl Workload {
     pub fn new(cfg: WorkloadCfg) -> Self {
-        Self { cfg, sides: BTreeMap::new(), lazy_q: Vec::new(), unchecked: Default::default() }
+        Self { cfg, sides: BTreeMap::new(), lazy_q: Vec::new(), unchecked: Default::default(), send_window_set: BTreeMap::new() }
     }
 
     pub fn add_side(&mut self, inc: u32, is_client: bool, plans: Vec<StreamPlan>) {
